@@ -15,7 +15,9 @@ Inductive expr :=
 | ENeg (e : expr)                      (* -e *)
 | EArith (op : arith_op) (a b : expr)  (* a + b, a - b, a * b, a / b *)
 | ECmp (op : cmp_op) (a b : expr)      (* a == b ... *)
-| ECall (f : idiv_fn) (a b : expr).    (* div(a, b) ... *)
+| ECall (f : idiv_fn) (a b : expr)     (* div(a, b) ... *)
+| EBound (op : cmp_op) (a b : expr).   (* a & <b, a & <=b, a & >b, a & >=b, a & !=b : BoundValue.validate
+                                          calls BinOp(op, a, b); the value a, or bottom *)
 
 Definition arith (impl : bool) (op : arith_op) (x y : num) : result num :=
   if impl then num_op op x y else num_op_exact op x y.
@@ -43,6 +45,11 @@ Fixpoint eval (impl : bool) (e : expr) : result value :=
     match eval impl a, eval impl b with
     | Ok (VNum x), Ok (VNum y) =>
       match int_div_op f x y with Ok r => Ok (VNum r) | Err => Err end
+    | _, _ => Err
+    end
+  | EBound op a b =>
+    match eval impl a, eval impl b with
+    | Ok (VNum x), Ok (VNum y) => if num_cmp op x y then Ok (VNum x) else Err
     | _, _ => Err
     end
   end.
